@@ -48,6 +48,16 @@ Done(ts, keys) ==
        /\ l' = l + 1
        /\ Finish(s)
 
+\* the same for an event of a stateless (pure) function: a failure does not poison later events
+DonePure(ts, keys) ==
+    LET f == Fails(ts)
+        s == Bump(stat, keys \cup {"events"} \cup (IF f = {} THEN {} ELSE {"violations"}))
+    IN /\ Report(f)
+       /\ bad' = bad
+       /\ stat' = s
+       /\ l' = l + 1
+       /\ Finish(s)
+
 BaseInit == l = 1 /\ bad = FALSE /\ stat = [events |-> 0] /\ TLCSet(1, 0)
 
 \* a diverged scenario is skipped up to the next reset
